@@ -1576,6 +1576,13 @@ fn main() {
         }
     }
     for k in kinds {
+        // whether a mutator on a full update section does I/O depends on WHEN the implementation merges a full section
+        // (inside the next mutator, as the pinned code does, or as soon as the section fills): an implementation of the
+        // second kind leaves nothing to monitor in this routine, which is an observation, not a harness failure
+        if k == Kind::IndexMutatorOnFullSection && ctx.get_obs(&format!("histories.{}", k.name())) > 0 && ctx.get_obs(&format!("histories_with_io.{}", k.name())) == 0 {
+            ctx.obs("index.mutator-on-full-section.no-io(the section is merged before the mutator runs)", 1);
+            continue;
+        }
         if ctx.get_obs(&format!("histories.{}", k.name())) > 0 && ctx.get_obs(&format!("histories_with_io.{}", k.name())) == 0 {
             ctx.inconclusive(&format!("routine {} never produced intercepted I/O (interposer missed its calls?)", k.name()));
         }
